@@ -49,7 +49,7 @@ def run_loop_table(ctx):
             return default_policy(caller, callee, depth) and callee.qn not in marks and callee.qn != 'BacktestTradingSession._is_rebalance_event'
         from ..symex import SymEx
         sx = SymEx(ctx.M, policy=pol, oracle=val, skip_print_guards=False)
-        ps = sx.run(fn)
+        ps = sx.run_entry(fn)
         ctx.paths_explored += len(ps)
         nps = [p for p in ps if p.outcome in ('fall', 'return')]
         acts = set()
